@@ -1,5 +1,6 @@
 """C09 — versioned reads (common/db/mvcc.go). Family MVCC, reference model."""
 FAMILY = 'MVCC'
+HOOK_COMMITS = ['fdec1bc']  # executor/verif_statedb_hook.go
 DRIVER = 'mvcc'
 PROPS = {
     'C09': dict(
@@ -32,6 +33,12 @@ def run(ctx):
     ctx.extra['exhaustive_small_config'] = dict(cfg='MVCC_All.cfg', behaviours=len(allb))
     for db in ('mem', 'leveldb'):
         ctx.replay(b, bs if db == 'mem' else bs[:len(bs) // 4], opts=dict(db=db), par=8, count=(db == 'mem'))
+    # the iterating variant (MVCCIter: Add/Del keep a last-value index, compared with the model's newest
+    # live record per key) and the executor's versioned state reader (executor.StateDB, hook VerifEnableMVCC)
+    ctx.replay(b, bs, opts=dict(db='mem', iter=1), par=8, count=False)
+    ctx.replay(b, allb, opts=dict(db='mem', iter=1, salt=3), par=8, count=False)
+    ctx.replay(b, bs, opts=dict(db='mem', statedb=1), par=8, count=False)
+    ctx.replay(b, allb, opts=dict(db='mem', statedb=1, salt=4), par=8, count=False)
     if not q:
         for sd in range(1, 4):
             bs2 = ctx.tlc_sim('MVCC_MC', 'MVCC_Gen.cfg', num=n, depth=9, seed=ctx.seed * 100 + sd)
